@@ -9,10 +9,11 @@ oracle : driver `rs` = Spec/RuleSpec.lean (head/body lists); on a protocol-confo
 """
 ID = "C11"
 MODULE = "PotasscoVerif.Props.C11"
-THEOREMS = ["PotasscoVerif.C11.C11_refines_partial", "PotasscoVerif.C11.C11_growth_independent",
-            "PotasscoVerif.C11.run_ref", "PotasscoVerif.RuleBuilder.view_ref", "PotasscoVerif.C11.C11_init_is_initN"]
-PARTIAL = {"PotasscoVerif.C11.C11_refines_partial": "proved for start/startMinimize/startBody/startSum/addHead/addGoal/setBound/end/clear; "
-           "clearHead, clearBody, weaken and copy/assign/swap are decided by the correspondence run only"}
+THEOREMS = ["PotasscoVerif.C11.C11_refines", "PotasscoVerif.C11.C11_growth_independent",
+            "PotasscoVerif.C11.run_ref", "PotasscoVerif.RuleBuilder.view_ref", "PotasscoVerif.C11.C11_init_is_initN",
+            "PotasscoVerif.RuleBuilder.clearHead_ref", "PotasscoVerif.RuleBuilder.clearBody_ref", "PotasscoVerif.RuleBuilder.weaken_ref", "PotasscoVerif.RuleBuilder.copy_ref"]
+PARTIAL = {"swap / two builders": "swap(a, b) exchanges two builder objects (two model states); histories over three real builders with copy/assign/swap between them are compared "
+           "with model and specification by the correspondence run; the theorem is stated for one builder with `copy` (copy construction / assignment as seen by that builder)"}
 BSIZES = (4096,)
 RULE = ("seeded histories over three builders: rules described head-first or body-first, disjunctive/choice/minimize, normal/sum bodies, "
         "0..200 elements (forcing several reallocations), weight-0 goals, setBound, clearHead/clearBody/clear, weaken to count/normal, end and "
@@ -21,10 +22,11 @@ RULE = ("seeded histories over three builders: rules described head-first or bod
 TRUSTED = ["realloc preserves the prefix of the block (modelled as list append)"]
 ASSUMPTIONS = ["weaken(Count) is exercised with positive weights (its bound formula is (bound+min-1)/min in 64 bit, truncated to int)"]
 TECHNIQUE = "Lean 4 refinement proof (memory-block model of RuleBuilder refines a head/body-list specification over all protocol-conforming histories) + differential correspondence run"
-LEVEL_TEXT = ("C11_refines_partial: for every protocol-conforming sequence of start/startMinimize/startBody/startSum/addHead/addGoal/setBound/end/clear, of any length and "
-              "any initial capacity, the memory-block model (header fields, word array with growth) raises no assertion, never accesses a word outside its block and reports "
-              "exactly the rule of the head/body-list specification (growth independence is a corollary). clearHead/clearBody/weaken/copy/assign/swap: no theorem yet; "
-              "for all operations the same histories are run through real RuleBuilder objects, the compiled model and the specification, and the specification is the oracle.")
+LEVEL_TEXT = ("C11_refines: for every protocol-conforming sequence of start/startMinimize/startBody/startSum/addHead/addGoal/setBound/clearHead/clearBody/clear/"
+              "weaken(to any type, with/without weight reset)/end/copy, of any length and any initial capacity, the memory-block model (header fields, word array with growth, in-place "
+              "compaction of weaken) raises no assertion, never accesses a word outside its block and reports exactly the rule of the head/body-list specification "
+              "(growth independence is a corollary). The same histories — also over three builders with copy/assign/swap — are run through real RuleBuilder objects, the compiled "
+              "model and the specification, and the specification is the oracle.")
 LEVEL_NOTE = ("Proved about Model/RuleBuilder.lean; model==code only on sampled histories. Bit-field widths (block < 2^30 bytes) and int overflow of weaken(Count) "
               "outside the model (unbounded Int). Trusted: Lean kernel + standard axioms, harness, generator.")
 
